@@ -647,7 +647,10 @@ class Program:
             sugar = sum(1 for c in b.calls if c.expn and c.macros and c.macros[0] in (
                 "desugar:Await", "desugar:QuestionMark", "desugar:ForLoop", "ensure", "bail"))
             return (user, sugar)
-        return max(bs, key=lambda b: (weight(b), len(b.blocks)))
+        # the user's code of an `async fn` (optionally under #[instrument]/#[async_trait]) lives on
+        # the `{closure#0}::{closure#0}..` spine; other closures are user closures or tracing
+        spine = [b for b in bs if re.fullmatch(r"(::\{closure#0\})*", b.name[len(owner):])]
+        return max(spine or bs, key=lambda b: (weight(b), len(b.blocks)))
 
     def calls_in(self, owner):
         for b in self.by_owner.get(owner, []):
